@@ -39,7 +39,13 @@ def _bbox_index(m, f, o):
     g = f.insts[o[1]]
     if g.op != "getelementptr" or g.d.get("srcty") != "%struct.BBox" or len(g.ops) != 2:
         return None
-    return _strip(f, g.ops[1])
+    # &(&bboxes[a])[b] (an alias such as `holeBBoxes = &bboxes[1]`): the subscripts add up
+    terms = [_strip(f, g.ops[1])]
+    b = g.ops[0]
+    while b[0] == "i" and f.insts[b[1]].op == "getelementptr" and f.insts[b[1]].d.get("srcty") == "%struct.BBox" and len(f.insts[b[1]].ops) == 2:
+        terms.append(_strip(f, f.insts[b[1]].ops[1]))
+        b = f.insts[b[1]].ops[0]
+    return terms[0] if len(terms) == 1 else ["sum", terms]
 
 
 def check(ctx, m, cfg, rule="R-SIB"):
@@ -75,7 +81,22 @@ def check(ctx, m, cfg, rule="R-SIB"):
                         b_, c_ = lin(d.ops[1], depth + 1)
                         return (b_, c_ + ir.cint_signed(d.ops[0]))
                 return (tuple(o[:2]), 0)
-            lx, ly = lin(X), lin(Y)
+            def linsum(o):
+                if o[0] != "sum":
+                    return lin(o)
+                base, off = None, 0
+                for t in o[1]:
+                    b_, c_ = lin(t)
+                    off += c_
+                    if b_ is not None:
+                        if base is not None:
+                            return None
+                        base = b_
+                return (base, off)
+            lx, ly = lin(X), linsum(Y)
+            if ly is None:
+                ctx.broken(rule, "%s: the bounding-box subscript at %s has more than one symbolic term" % (i.src_fn, i.where()))
+                continue
             good = lx[0] == ly[0] and ly[1] == lx[1] + 1
             if good:
                 ctx.ok(rule, inst, "hole X is paired with bboxes[X + 1]")
